@@ -65,8 +65,6 @@ func c15YamlUnmarshal(data []byte, into any) error { return yaml.Unmarshal(data,
 
 type c15Oracle struct {
 	chartDatas map[string]bool // contents of Chart.yaml / requirements.yaml files
-	reqDatas   map[string]bool // ... of requirements.yaml files
-	allPairs   bool            // duplicate Chart.yaml files are possible (files kind)
 	metas      map[string]*chart.Metadata
 	locks      map[string]*chart.Lock
 	lockDatas  map[string]bool
@@ -145,7 +143,7 @@ func c15Trimmed(files []c15File) []c15File {
 
 func newC15Oracle() *c15Oracle {
 	c15In = &c15Interner{ids: map[string]int{}}
-	return &c15Oracle{in: c15In, allPairs: true, chartDatas: map[string]bool{}, reqDatas: map[string]bool{}, metas: map[string]*chart.Metadata{}, locks: map[string]*chart.Lock{},
+	return &c15Oracle{in: c15In, chartDatas: map[string]bool{}, metas: map[string]*chart.Metadata{}, locks: map[string]*chart.Lock{},
 		lockDatas: map[string]bool{}, valDatas: map[string]bool{}, jsonDatas: map[string]bool{}, tgzDatas: map[string]bool{},
 		semvers: map[string]bool{}, ignSeen: map[string]bool{}}
 }
@@ -211,9 +209,6 @@ func (o *c15Oracle) addFile(name string, data []byte) {
 		switch {
 		case base == "Chart.yaml" || base == "requirements.yaml":
 			o.chartDatas[s] = true
-			if base == "requirements.yaml" {
-				o.reqDatas[s] = true
-			}
 		case base == "Chart.lock" || base == "requirements.lock":
 			o.lockDatas[s] = true
 		case base == "values.yaml":
@@ -311,9 +306,7 @@ func (o *c15Oracle) close() {
 		to         string // "" = error
 	}
 	var mergeRecs []mergeRec
-	// merges the model can ask for: every Chart.yaml / requirements.yaml content onto the
-	// empty value (first Chart.yaml of a level, or requirements.yaml without one), then
-	// requirements.yaml contents (and, with allPairs, duplicate Chart.yaml files) onto those
+	// merges the model can ask for (yaml.Unmarshal onto the Metadata built so far)
 	done := map[string]bool{}
 	addRec := func(m *chart.Metadata, d string) *chart.Metadata {
 		mk := c15CoqMeta(m)
